@@ -55,7 +55,7 @@ def lean_correspondence(ctx, progs):
         return
     live = []
     for (req, impl), out in zip(reqs, outs):
-        if out.startswith("err unsupported") or out == "bad-op":
+        if out.startswith("err unsupported") or out.startswith("err illformed") or out == "bad-op":
             ctx.notes["model_declined"] = ctx.notes.get("model_declined", 0) + 1
             continue
         live.append((req, impl))
